@@ -89,6 +89,14 @@ pub fn parse_rootdefinition_enum(
                             Some(next) => (ir::Constant::UInt32(next), last_value.1),
                             None => (ir::Constant::IntLiteral(v as i128 + 1), literal_ty),
                         },
+                        // A bool valued enumerator continues as an integer
+                        ir::Constant::Bool(v) => (
+                            ir::Constant::Int32(v as i32 + 1),
+                            context
+                                .module
+                                .type_registry
+                                .register_type(ir::TypeLayer::Scalar(ir::ScalarType::Int32)),
+                        ),
                         _ => panic!("Unexpected constant type in enum value"),
                     }
                 }
